@@ -46,6 +46,12 @@ def cases(tier):
                                 'py': max(sh) <= 3 and w == 'rnd'
                                 and case_ == 'triaxial',
                             })
+            # weakly magnetic media: mu_r within 1e-5 of one (but not one)
+            for f in FREQS:
+                out.append({'shape': sh, 'w': w, 'freq': f,
+                            'model': {'case': 'VTI', 'prof': 'rnd',
+                                      'mu_r': 'near1', 'eps_r': False},
+                            'py': False})
     return out
 
 
